@@ -9,7 +9,7 @@ ASSUMPTIONS = [
     "every event names an exchange the engine was built with (the code panics otherwise; the harness and model both report `panic`)",
     "ExchangeId lookups and ExchangeIndex lookups address the same slot (distinct exchange ids, C11)",
 ]
-SOURCE_FILES = ["barter/src/engine/state/connectivity/mod.rs", "barter/src/engine/mod.rs", "barter/src/engine/state/mod.rs"]
+SOURCE_FILES = ["barter/src/engine/state/connectivity/mod.rs", "barter/src/engine/mod.rs", "barter/src/engine/state/mod.rs", "barter-instrument/src/exchange.rs"]
 CLAIM = True
 TECHNIQUE = "Lean 4: invariant (global = conjunction of links) by induction over event histories + refinement to a history-only spec; correspondence of the model with Engine::process"
 LEVEL_TEXT = ("Proof. Lean theorems over the connectivity model (lean/BarterModel/Props/C14.lean): for every n >= 1 and every finite history of "
@@ -18,8 +18,9 @@ LEVEL_TEXT = ("Proof. Lean theorems over the connectivity model (lean/BarterMode
               "(market/account_item_heals), on-disconnect is invoked once per notice with the right exchange (on_disconnect_once), and the whole "
               "state is a function of the history (refines_spec). Unbounded in n and in history length, which the single-step tests cannot reach. "
               "The model is tied to the code by running the same histories through the real Engine::process on every run.")
-PREBUILD = [["python3", "tools/rust2lean_sm.py", "--require", "connectivity"]]
+PREBUILD = [["python3", "tools/rust2lean_sm.py", "--require", "connectivity,connectivity_updates"]]
 LEVEL_NOTE = ("Health / ConnectivityState / all_healthy are additionally regenerated from the source by tools/rust2lean_sm.py and proved equal to the model (kernels_agree_with_source). "
+              "So are the four update arms of ConnectivityStates, the readers connectivity / connectivity_index and ExchangeIndex::index (Generated/Machines3.lean, group connectivity_updates; the &mut accessors read in place, the IndexMap through the translator's explicit map vocabulary): proved equal to the model for all states in which the addressed exchange exists (update_arms_agree_with_source); the translator, its prelude and the stated meaning of the map vocabulary are trusted for that tie. "
               "Trusted: Lean kernel; axioms propext/Classical.choice/Quot.sound only; the hand-written model (tied by sampled correspondence: 300 quick / "
               "10k random + all 37k histories of length <=5 over 2 exchanges thorough); harness and driver. Assumes n >= 1, events name known exchanges, "
               "distinct exchange ids (ExchangeId and ExchangeIndex lookups hit the same slot).")
